@@ -26,7 +26,7 @@ REQUIRED = {"steps.call_log": {"quick": 2500, "thorough": 100000}, "steps.status
             "steps.dry_run_calls_nothing": {"quick": 300, "thorough": 10000}, "history.retry_final_status": {"quick": 100, "thorough": 4000},
             "history.second_run_status": {"quick": 100, "thorough": 4000}, "steprun.return_iff_not_failed": {"quick": 5000, "thorough": 200000}}
 REQUIRED_SEEN = {"step_status": ["passed", "failed", "error", "pending", "pending_warn", "undefined", "skipped", "untested"],
-                 "background_step_with_placeholder": ["feature"],
+                 "background_step_with_placeholder": ["feature"], "autoretry_patch_style": ["rows", "as_listed"],
                  "error_exception_class": ["RuntimeError", "ValueError", "KeyError", "NotImplementedError", "OSError", "LookupError",
                                            "TypeError", "ZeroDivisionError", "CustomError", "AttributeError"]}
 EXHAUSTIVE = True
@@ -151,8 +151,17 @@ def history_retry(lab, mon, rng):
                 if not isinstance(s, lab.ScenarioOutline):
                     continue
                 _ = s.scenarios
-            for s in f.walk_scenarios():
-                patch_scenario_with_autoretry(s, max_attempts=max_attempts)
+            if patch_style == "rows":
+                for s in f.walk_scenarios():
+                    patch_scenario_with_autoretry(s, max_attempts=max_attempts)
+            else:
+                # the documented idiom: patch what feature.scenarios / rule.scenarios hold -- plain scenarios AND outline objects
+                # (the function patches every row of an outline itself)
+                for container in [f] + list(f.rules):
+                    for s in container.scenarios:
+                        patch_scenario_with_autoretry(s, max_attempts=max_attempts)
+    patch_style = rng.choice(["rows", "as_listed"])
+    mon.seen("autoretry_patch_style", patch_style)
     obs = lab.run(program, args=[], hook_plugins=[plug], pre_run=pre_run)
     hist = {"max_attempts": max_attempts, "per_attempt": per_attempt}
     mon.case(("retry", RB.strip_case(case), hist), True)
